@@ -22,11 +22,13 @@
 (*        ErrNotFound of a never published create; Rollback aborts its     *)
 (*        whole SQL transaction on any error                        (F8)   *)
 (*   AbandonKeepsDidRows   abandoning a create deletes the document        *)
-(*        versions but not the rows of table did                           *)
+(*        versions but not the rows of table did                    (F8b)  *)
 (*   OpsBuildOnPending     an operation is accepted while the subject      *)
 (*        still has change-log rows; it builds on the uncommitted version  *)
-(*   UpdatesDeactivated    update operations are accepted on a deactivated *)
-(*        subject; did:nuts Commit then silently publishes nothing         *)
+(*   UpdatesDeactivated    an update operation on a deactivated subject    *)
+(*        reports success: did:nuts Commit silently publishes nothing      *)
+(*        (prescriptive: it fails, the operation is abandoned for every    *)
+(*        DID of the subject)                                       (F8d)  *)
 (*   CheckOutsideTx        (not in the current code) the admission check   *)
 (*        of an operation is a step of its own before the inserting        *)
 (*        transaction: check-then-act between concurrent requests          *)
@@ -51,7 +53,7 @@ VARIABLES rows,       \* [Subjects -> SUBSET Nat]: generations of rows in table 
           pc,         \* [Procs -> the operation the request goroutine is running] (concurrent API requests)
           nops, faults, ticks, sweeps,
           swept,      \* TRUE iff a sweep ran that considered every pending log row (all were older than a minute)
-          pubtx,      \* ghost: transaction ids whose did:nuts version went out on the network
+          pubtx,      \* ghost: transaction ids whose did:nuts version went out on the network (or was found there by the sweep)
           abandoned,  \* ghost: transaction ids whose versions were deleted
           pubkeys,    \* ghost: keys ever published on the network
           retryOp,    \* ghost: [Subjects -> op]: last operation hit by an injected fault
@@ -100,7 +102,6 @@ Rejected(op, s) ==
     ELSE \/ rows[s] = {}                                                \* ErrSubjectNotFound
          \/ (op # "deactivate" /\ ~HasDocs(s))                          \* Latest: record not found
          \/ (~OpsBuildOnPending /\ Pending(s))
-         \/ (~UpdatesDeactivated /\ HasDocs(s) /\ Deact(Content(Latest(s, "web"))))
 
 \* next content of one DID; Same = the operation returns nil for this document (no new version)
 Same == [keys |-> {}, svc |-> "same"]
@@ -172,7 +173,9 @@ NutsOutcomes(typ, s) ==
     CASE typ = "created" -> {<<"ok", TRUE, FALSE>>} \cup inj
       [] typ = "updated" ->
             IF pub[s] = <<>> THEN {<<"fail", FALSE, FALSE>>}             \* resolver: not found
-            ELSE IF Deact(Last(pub[s])) THEN {<<"ok", FALSE, FALSE>>}    \* onUpdate: "won't update", returns nil
+            ELSE IF Deact(Last(pub[s]))
+                 THEN IF UpdatesDeactivated THEN {<<"ok", FALSE, FALSE>>}   \* onUpdate: "won't update", returned nil
+                                            ELSE {<<"fail", FALSE, FALSE>>} \* onUpdate: ErrDeactivated, the operation is abandoned
             ELSE {<<"ok", TRUE, FALSE>>} \cup inj
       [] typ = "deactivated" ->
             IF pub[s] = <<>> \/ Deact(Last(pub[s])) THEN {<<"fail", FALSE, FALSE>>}   \* Update: not found / ErrDeactivated
@@ -202,7 +205,10 @@ Tx2(p) ==
        THEN /\ vers' = DropTx(vers, pc[p].tx)
             /\ log' = {l \in log : l.tx # pc[p].tx}
             /\ abandoned' = abandoned \cup {pc[p].tx}
-            /\ rows' = IF pc[p].op = "create" /\ ~AbandonKeepsDidRows THEN [rows EXCEPT ![pc[p].s] = {}] ELSE rows
+            \* the rows of table did go with their last version (deleteDIDWithoutDocuments): an abandoned create, or, with
+            \* OpsBuildOnPending, the abandoned operation that was built on a create which the sweep rolled back meanwhile
+            /\ rows' = IF ~AbandonKeepsDidRows /\ \A m \in Methods : DropTx(vers, pc[p].tx)[pc[p].s][m] = {}
+                        THEN [rows EXCEPT ![pc[p].s] = {}] ELSE rows
             /\ hist' = H([a |-> "Tx2", p |-> p, kind |-> "abandon"])
             /\ UNCHANGED retryOp
        ELSE /\ log' = {l \in log : l.tx # pc[p].tx}
@@ -243,26 +249,32 @@ SweepEffect ==
         abort == SweepAbortsOnUnpublishedCreate /\ \E l \in aged : l.m = "nuts" /\ NutsErr(l)
         \* a transaction is rolled back iff one of its aged rows is not committed (did:web always is)
         bad == {t \in txs : \E l \in aged : l.tx = t /\ l.m = "nuts" /\ ~NutsCommitted(l)}
-        \* prescriptive: rolling back a create also removes the rows of table did (ON DELETE CASCADE: every version and log row)
+        keep(s, m) == {v \in vers[s][m] : ~\E l \in aged : l.tx \in bad /\ l.s = s /\ l.m = m /\ l.tx = v.tx}
+        \* prescriptive: rolling back the last version of a DID also removes its row of table did (deleteDIDWithoutDocuments);
+        \* that is a rolled back create, or, with OpsBuildOnPending, also the operations that were built on it
         gone == IF AbandonKeepsDidRows THEN {}
-                ELSE {s \in Subjects : \E l \in aged : l.tx \in bad /\ l.s = s /\ l.typ = "created"} IN
+                ELSE {s \in Subjects : /\ \E l \in aged : l.tx \in bad /\ l.s = s
+                                       /\ \A m \in Methods : keep(s, m) = {}} IN
     /\ swept' = (aged = log)
     /\ IF abort
-       THEN /\ UNCHANGED <<vers, log, abandoned, rows, pub>>
+       THEN /\ UNCHANGED <<vers, log, abandoned, rows, pub, pubtx>>
             /\ hist' = H([a |-> "Sweep", aborted |-> TRUE])
        ELSE \* only the versions named by the aged rows are deleted (rows of the same transaction are inserted together)
             /\ vers' = [s \in Subjects |-> [m \in Methods |->
-                          IF s \in gone THEN {}
-                          ELSE {v \in vers[s][m] : ~\E l \in aged : l.tx \in bad /\ l.s = s /\ l.m = m /\ l.tx = v.tx}]]
+                          IF s \in gone THEN {} ELSE keep(s, m)]]
             /\ log' = {l \in log : l.tx \notin txs /\ l.s \notin gone}
             /\ abandoned' = abandoned \cup bad \cup UNION {TxOf(s) : s \in gone}
+            \* IsCommitted found the did:nuts version of the kept transactions on the network (hash of the newest network
+            \* document), also a version that was not sent itself because the network already had that content: a Deactivate
+            \* of a deactivated subject that stopped before its did:nuts Commit could refuse it
+            /\ pubtx' = pubtx \cup (txs \ bad)
             /\ rows' = [s \in Subjects |-> IF s \in gone THEN {} ELSE rows[s]]
             /\ pub' = [s \in Subjects |-> IF s \in gone THEN <<>> ELSE pub[s]]   \* a new create starts a new DID
             /\ hist' = H([a |-> "Sweep", aborted |-> FALSE])
 
 Sweep == /\ AllIdle /\ phase = "run" /\ sweeps < MaxSweeps
          /\ SweepEffect /\ sweeps' = sweeps + 1
-         /\ UNCHANGED <<pc, nops, faults, ticks, pubtx, pubkeys, retryOp, phase, todo>>
+         /\ UNCHANGED <<pc, nops, faults, ticks, pubkeys, retryOp, phase, todo>>
 
 (* --------------------------------------------------------------- tail *)
 \* every behaviour ends with: a minute passes, the sweep runs, the operations hit by a fault are repeated without faults
@@ -273,7 +285,7 @@ TailTick == /\ WithTail /\ AllIdle /\ phase = "run" /\ nops >= 1
 TailSweep == /\ phase = "ticked"
              /\ SweepEffect /\ phase' = "swept"
              /\ todo' = {s \in Subjects : retryOp[s] # "none"}
-             /\ UNCHANGED <<pc, nops, faults, ticks, sweeps, pubtx, pubkeys, retryOp>>
+             /\ UNCHANGED <<pc, nops, faults, ticks, sweeps, pubkeys, retryOp>>
 TailSkip(s) == /\ phase = "swept" /\ AllIdle /\ s \in todo /\ ~EnvOK(retryOp[s], s)
                /\ todo' = todo \ {s}
                /\ UNCHANGED <<rows, vers, log, pub, pc, nops, faults, ticks, sweeps, swept, pubtx, abandoned, pubkeys, retryOp, phase, hist>>
